@@ -57,7 +57,10 @@ def var_chao2(counts: OneOf(Seq(Nat, "list", min_len=1), Seq(Nat, "ndarray", min
 @contract("pyrepseq.stats.jaccard_index", props=["C16"], scope="collections")
 def jaccard_index(A: OneOf(CollT("list"), CollT("set"), CollT("Series")),
                   B: OneOf(CollT("list"), CollT("set"), CollT("Series"))) -> Real:
-    # documented behaviour: missing values are dropped inside Series only
+    # documented behaviour: missing values are dropped inside Series only -- and only there may they occur (the property's domain: how two
+    # NaN objects in plain lists / sets compare depends on object identity in Python)
+    requires(is_series(A) or card(dropna_set(eset(A))) == card(eset(A)))
+    requires(is_series(B) or card(dropna_set(eset(B))) == card(eset(B)))
     requires(card((dropna_set(eset(A)) if is_series(A) else eset(A)) | (dropna_set(eset(B)) if is_series(B) else eset(B))) > 0)
     raises(None)
     returns(card((dropna_set(eset(A)) if is_series(A) else eset(A)) & (dropna_set(eset(B)) if is_series(B) else eset(B)))
